@@ -133,6 +133,74 @@ pub fn check_cell(run: &mut Run, rng: &mut Rng, c: MCell, class: &str, n_random:
     }
 }
 
+/// Hook-guided search for interior points whose lookup is fragile (cf. C01, DESIGN 12e): interior points of random cells are
+/// mutated inside their cell, keeping those for which the lookup had to walk furthest along its probe spiral (hook H1). Every
+/// point evaluated on the way is an oracle-admitted interior point and must map back to its cell like any other.
+fn fragile_interior_search(run: &mut Run, rng: &mut Rng, steps: u64) {
+    struct Item {
+        effort: u8,
+        c: MCell,
+        q: V3,
+    }
+    let mut elite: Vec<Item> = Vec::new();
+    let cap = 48;
+    for step in 0..steps {
+        let (c, q) = if elite.len() < cap || step % 4 == 0 {
+            let r = 2 + rng.below(28) as i32;
+            let c = gen::random_cell(rng, r);
+            let id = encode(c);
+            let (Ok(cu), Ok(ring)) = (centre_unit(id), ring_units(id, 1)) else { continue };
+            let i = rng.usize(ring.len());
+            let (a, b) = (rng.f(), rng.f());
+            let (a, b) = if a + b > 1.0 { (1.0 - a, 1.0 - b) } else { (a, b) };
+            (c, normalize(add(cu, add(scale(sub(ring[i], cu), a), scale(sub(ring[(i + 1) % ring.len()], cu), b)))))
+        } else {
+            let it = &elite[rng.usize(elite.len())];
+            let eps = cell_size(it.c.res) * 10f64.powf(rng.range(-4.0, -0.7));
+            (it.c, gen::nudge(rng, it.q, eps))
+        };
+        let (lo, la) = lonlat_from_unit(q);
+        let l = cell_size(c.res);
+        // admitted only by the planar oracle, with the same tolerance as everywhere else in this monitor
+        match o1(c, lo, la) {
+            Ok(d) if d < -(1e-12f64).max(1e-9 * l) => {}
+            _ => continue,
+        }
+        let id = encode(c);
+        run.evaluations += 1;
+        run.count("fragile_search.interior_points");
+        let effort = match lookup(lo, la, c.res) {
+            Ok(back) => {
+                let b = last_lookup_branch();
+                if back != id {
+                    run.violation(
+                        "C02.interior",
+                        json!({"cell": hu(id), "res": c.res, "class": "fragile_search", "lon": fj(lo), "lat": fj(la), "kind": "fragile_search"}),
+                        format!("interior point ({lo}, {la}) of {} [found by the hook-guided search; lookup branch {:?}] maps to {}", hu(id), b, hu(back)),
+                    );
+                }
+                if b.0 == 2 {
+                    b.1.min(25)
+                } else {
+                    0
+                }
+            }
+            Err(e) => {
+                run.violation("C02.ok", json!({"cell": hu(id), "res": c.res, "class": "fragile_search"}), format!("lookup of an interior point failed: {e}"));
+                0
+            }
+        };
+        run.count(&format!("fragile_search.probe_index.{effort:02}"));
+        if elite.len() < cap {
+            elite.push(Item { effort, c, q });
+        } else if let Some(k) = (0..elite.len()).min_by_key(|k| elite[*k].effort) {
+            if effort >= elite[k].effort {
+                elite[k] = Item { effort, c, q };
+            }
+        }
+    }
+}
+
 fn run(ctx: &Ctx) -> Run {
     silence_panics();
     let threads = ctx.threads;
@@ -164,6 +232,8 @@ fn run(ctx: &Ctx) -> Run {
                 run.count(&format!("stratified.res{res:02}"));
             }
         }
+        // (2b) hook-guided search for interior points whose lookup is fragile
+        fragile_interior_search(run, &mut rng, ctx.n(400_000, 20_000_000) / threads as u64);
         // (3) the cells reached by the hostile point classes (poles, seams, vertices, face centres, antimeridian)
         let n = ctx.n(48_000, 2_000_000) / threads as u64;
         for _ in 0..n {
